@@ -4,9 +4,9 @@ import Cgm.Model.Rot
 set_option linter.unusedSectionVars false
 namespace Cg.Trace.C11
 open Cg Cg.Gen.C11
-variable {K : Type} [Field K] [Transc K] [FRem K] [Lits K]
+variable {K : Type} [Field K] [LinearOrder K] [Transc K] [FRem K] [Lits K]
 attribute [local simp] V2.magnitude V3.magnitude V4.magnitude V3.normalize V3.normalizeTo V3.distance
-  V2.angle V3.angle V4.angle Quat.magnitude Quat.normalize Quat.normalizeTo
+  V2.angle V3.angle Quat.magnitude Quat.normalize Quat.normalizeTo
 
 theorem t_v2_magnitude (a : V2 K) : t_v2_magnitude (envL a.toList) = .okS [a.magnitude] := by tr_auto_nf
 theorem t_v3_magnitude (a : V3 K) : t_v3_magnitude (envL a.toList) = .okS [a.magnitude] := by tr_auto_nf
@@ -19,7 +19,24 @@ theorem t_v3_project_on (a b : V3 K) :
     t_v3_project_on (envL (a.toList ++ b.toList)) = .okS (V3.projectOn a b).toList := by tr_auto
 theorem t_v3_angle (a b : V3 K) : t_v3_angle (envL (a.toList ++ b.toList)) = .okS [V3.angle a b] := by tr_auto_nf
 theorem t_v2_angle (a b : V2 K) : t_v2_angle (envL (a.toList ++ b.toList)) = .okS [V2.angle a b] := by tr_auto_nf
-theorem t_v4_angle (a b : V4 K) : t_v4_angle (envL (a.toList ++ b.toList)) = .okS [V4.angle a b] := by tr_auto_nf
+/-- the default `angle` (as repaired): `acos` of the cosine clamped to `[-1, 1]`; two comparisons on the
+unclamped path, one when the cosine exceeds 1 -/
+theorem t_v4_angle (a b : V4 K) (h1 : ¬ 1 < V4.dot a b / (a.magnitude * b.magnitude))
+    (h2 : ¬ V4.dot a b / (a.magnitude * b.magnitude) < -1) :
+    t_v4_angle (envL (a.toList ++ b.toList)) =
+      .okG [V4.angle a b] [.lt 1 (V4.dot a b / (a.magnitude * b.magnitude)) false,
+                           .lt (V4.dot a b / (a.magnitude * b.magnitude)) (-1) false] := by
+  simp only [V4.angle, clampUnit, if_neg h1, if_neg h2]; tr_auto_nf
+theorem t_v4_angle_clamped (a b : V4 K) (h1 : 1 < V4.dot a b / (a.magnitude * b.magnitude)) :
+    t_v4_angle_clamped (envL (a.toList ++ b.toList)) =
+      .okG [V4.angle a b] [.lt 1 (V4.dot a b / (a.magnitude * b.magnitude)) true] := by
+  simp only [V4.angle, clampUnit, if_pos h1]; tr_auto_nf
+theorem t_q_angle (a b : Quat K) (h1 : ¬ 1 < Quat.dot a b / (a.magnitude * b.magnitude))
+    (h2 : ¬ Quat.dot a b / (a.magnitude * b.magnitude) < -1) :
+    t_q_angle (envL (a.toList ++ b.toList)) =
+      .okG [Quat.angle a b] [.lt 1 (Quat.dot a b / (a.magnitude * b.magnitude)) false,
+                             .lt (Quat.dot a b / (a.magnitude * b.magnitude)) (-1) false] := by
+  simp only [Quat.angle, clampUnit, if_neg h1, if_neg h2]; tr_auto_nf
 theorem t_q_magnitude (q : Quat K) : t_q_magnitude (envL q.toList) = .okS [q.magnitude] := by tr_auto_nf
 theorem t_q_normalize (q : Quat K) : t_q_normalize (envL q.toList) = .okS q.normalize.toList := by tr_auto_nf
 theorem t_q_distance2 (p q : Quat K) : t_q_distance2 (envL (p.toList ++ q.toList)) = .okS [Quat.distance2 p q] := by tr_auto
